@@ -184,7 +184,7 @@ func TestC05(t *testing.T) {
 	mine := func() bool { n++; return n%nshards == shard }
 	run := func(v reflect.Value, plan c05Plan, k int, long bool, what string) {
 		obj, exp := c05Render(v, plan)
-		opt := refcodec.EncOptions{BinChunkTag: 'b', PadExact: k, ForceLongObject: long}
+		opt := refcodec.EncOptions{PadExact: k, ForceLongObject: long}
 		b, failure, harness := c05Check([]*av.V{obj}, []interface{}{exp}, opt, refcodec.Canonical{})
 		if harness != "" {
 			harnessBug(t, "C05", "%s (%s %v)", harness, v.Type().Name(), plan)
@@ -317,7 +317,7 @@ func TestC05(t *testing.T) {
 		c.set("instances", descs)
 		c.set("class_index_offset", k)
 		r.Current(fmt.Sprintf("C05 random %v k=%d long=%v", descs, k, long))
-		opt := refcodec.EncOptions{BinChunkTag: 'b', PadExact: k, ForceLongObject: long, HoistAnywhere: rapid.Bool().Draw(rt, "hoist")}
+		opt := refcodec.EncOptions{PadExact: k, ForceLongObject: long, HoistAnywhere: rapid.Bool().Draw(rt, "hoist")}
 		b, failure, harness := c05Check(objs, exps, opt, rapidChoices{rt})
 		if harness != "" {
 			harnessBug(rt, "C05", "%s (%v)", harness, descs)
